@@ -61,7 +61,7 @@ func (e *Engine) background(d *decls) []*Term {
 		}
 	}
 	// implements-predicates on registered concrete types
-	for fname := range d.funcs {
+	for _, fname := range sortedKeys(d.funcs) {
 		if strings.HasPrefix(fname, "impl|") {
 			it := ifaceReg[strings.TrimPrefix(fname, "impl|")]
 			if it == nil {
@@ -69,6 +69,11 @@ func (e *Engine) background(d *decls) []*Term {
 			}
 			iface := it.Underlying().(*types.Interface)
 			for i, t := range tags.types {
+				// facts about a concrete type are only needed where its tag occurs literally in the query
+				// (this also keeps the script independent of how many types have been seen so far)
+				if !d.intLits[int64(i+1)] {
+					continue
+				}
 				if pt, isPseudo := t.(*pseudoType); isPseudo {
 					f := App(fname, BoolS, IntLit(int64(i+1)))
 					if pseudoImplements(pt, it) {
@@ -81,7 +86,7 @@ func (e *Engine) background(d *decls) []*Term {
 				out = append(out, Eq(App(fname, BoolS, IntLit(int64(i+1))), BoolLit(types.Implements(t, iface))))
 			}
 			// interface embedding: implementing a larger interface implies the smaller ones in use
-			for f2 := range d.funcs {
+			for _, f2 := range sortedKeys(d.funcs) {
 				if f2 != fname && strings.HasPrefix(f2, "impl|") {
 					it2 := ifaceReg[strings.TrimPrefix(f2, "impl|")]
 					if it2 != nil && types.Implements(it, it2.Underlying().(*types.Interface)) {
